@@ -89,7 +89,7 @@ def theorem_names(prop):
             ns.append(t.split()[1])
         elif t.startswith('end ') and ns and t.split()[1] == ns[-1].split('.')[-1]:
             ns.pop()
-        elif t.startswith('theorem '):
+        elif line.startswith('theorem '):
             n = t.split()[1].split('(')[0].split(':')[0].strip()
             names.append('.'.join(ns + [n]))
     return names
@@ -106,11 +106,18 @@ def audit(prop):
     open(path, 'w').write(src)
     rc, out = sh(['lake', 'env', 'lean', path], cwd=LEAN)
     ok = rc == 0
-    cur = None
-    import re
-    for m in re.finditer(r"'([^']+)' (depends on axioms: \[([^\]]*)\]|does not depend on any axioms)", out.replace('\n', ' ')):
-        ax = [a.strip() for a in (m.group(3) or '').split(',') if a.strip()]
-        details['axioms'][m.group(1)] = ax
+    for line in out.split('\n'):
+        line = line.strip()
+        if not line.startswith("'"):
+            continue
+        if "' depends on axioms: [" in line:
+            name, rest = line[1:].rsplit("' depends on axioms: [", 1)
+            ax = [a.strip() for a in rest.rstrip(']').split(',') if a.strip()]
+        elif "' does not depend on any axioms" in line:
+            name, ax = line[1:].rsplit("' does not depend on any axioms", 1)[0], []
+        else:
+            continue
+        details['axioms'][name] = ax
         if not set(ax) <= ALLOWED_AXIOMS:
             ok = False
     if len(details['axioms']) != len(names):
